@@ -1,10 +1,12 @@
 ------------------------------ MODULE OptTrace ------------------------------
 (***************************************************************************)
-(* Trace validation for C16.  Each event is one run of the real library    *)
-(* entry points (real option parser -> CLIFilterSequence /                 *)
-(* CLISequenceSelectionPredicate, CLIAnnotationPipeline,                   *)
-(* CLIDistributeSequence) on a random command line and random records far  *)
-(* outside the curated data set.  The event carries the command line as    *)
+(* Trace validation for C16.  Each event is one run, on a random command   *)
+(* line and random records far outside the curated data set, either of the *)
+(* real library entry points (level "lib": real option parser ->           *)
+(* CLIFilterSequence / CLISequenceSelectionPredicate,                      *)
+(* CLIAnnotationPipeline, CLIDistributeSequence; 4-15 records) or of the   *)
+(* real binaries (level "bin": files of 60-400 records, output files       *)
+(* decoded).  The event carries the command line as                        *)
 (* option instances, the records read and what came out; it is accepted    *)
 (* iff that is what Grep / Annotate / Route assign to the command line.    *)
 (*                                                                         *)
@@ -39,7 +41,7 @@ GrepVerdict(e) ==
       ELSE IF [i \in 1..Len(e.out) |-> e.out[i].id] # [i \in 1..Len(ranks) |-> e.recs[ranks[i]].id] THEN "kept"
       ELSE IF ~SameSeq(e.out, Pick(e.recs, ranks), e.fastq) THEN "record-changed"
       ELSE IF two /\ ~SameSeq(e.outm, Pick(e.mates, ranks), e.fastq) THEN "mates"
-      ELSE IF ~two /\ SetOf(e.pred) # K THEN "predicate"
+      ELSE IF ~two /\ e.level = "lib" /\ SetOf(e.pred) # K THEN "predicate"
       ELSE "ok"
 
 AnnotVerdict(e) ==
